@@ -34,11 +34,7 @@ def cases(ctx):
     fmts = sorted(docs.GENERATORS)
     for i in range(ctx.budget(4000, 240000)):
         fmt = fmts[i % len(fmts)]
-        for _ in range(10):
-            d = docs.GENERATORS[fmt](rng, f'K{ctx.shard}.{i}')
-            if any(e['cues'] for e in d['expected']):
-                break
-        yield d
+        yield docs.generate(fmt, rng, f'K{ctx.shard}.{i}', ctx)
 
 
 def nontrivial(case):
